@@ -200,6 +200,9 @@ def run(ctx: Ctx) -> None:
                 r = pm.resolve(fname, c)
                 # (a) _create_value(E)
                 if r == ("self", "_create_value") and c.args:
+                    par_ = mod.parent.get(c)
+                    if isinstance(par_, ast.Attribute) and par_.attr == "tokens" and par_.value is c:
+                        continue  # only the Token copies are taken: judged where they go, (b) / (c)
                     cnt = sf.counts(fname, n, c.args[0])
                     if cnt is None:
                         continue
@@ -382,6 +385,9 @@ def _dominating_condition(pm: ParserModel, fname: str, at: ast.AST) -> str:
 def _comprehension_source(e: ast.AST) -> Optional[ast.AST]:
     if isinstance(e, (ast.ListComp, ast.GeneratorExp)) and len(e.generators) == 1:
         return e.generators[0].iter
+    # self._create_value(X).tokens: the Token copies of X, one for one (R14.4 decides that mapping)
+    if isinstance(e, ast.Attribute) and e.attr == "tokens" and isinstance(e.value, ast.Call) and (attr_chain(e.value.func) or ("",))[-1] == "_create_value" and len(e.value.args) == 1:
+        return e.value.args[0]
     return None
 
 
